@@ -256,6 +256,12 @@ impl Debugee {
         self.execution_status == ExecutionStatus::Exited
     }
 
+    /// Record that the process has ended (when the end was met outside of [`Self::trace_until_stop`],
+    /// by a single step).
+    pub fn set_exited(&mut self) {
+        self.execution_status = ExecutionStatus::Exited;
+    }
+
     /// Return rendezvous struct.
     ///
     /// # Panics
